@@ -134,7 +134,7 @@ def _same_qsvs(a, b):
     return True
 
 
-def oracle_ema(ctx, mb, q, sig, samples, result, fail):
+def oracle_ema(ctx, mb, q, sig, samples, result, fail, values=True):
     """independent: every runtime tensor's statistics are the EMA (0.95) of its true per-sample
     min/max in dataset order; constants have their true per-tensor / per-channel min/max"""
     sgi, conts = capture(mb, sig, samples)
@@ -143,6 +143,48 @@ def oracle_ema(ctx, mb, q, sig, samples, result, fail):
     m = pl.read(mb)
     sg = m.subgraphs[sgi]
     names = {pl.tname(t): t for t in sg.tensors}
+    # completeness: every float32 operand / result (constants included) of every operator of the calibrated subgraph that the recipe
+    # selects for static-range quantization has an entry, whatever was calibrated before and in whatever order the signatures came
+    from . import oracles as orc
+    for op in sg.operators:
+        key = orc.op_key_of(m.operatorCodes[op.opcodeIndex].builtinCode)
+        if key is None:
+            continue
+        scope = "".join(pl.tname(sg.tensors[t]) + ";" for t in op.outputs if t != -1)
+        try:
+            mode, _cfg = orc.mode_of(q, key, scope)
+        except Exception:  # noqa: BLE001
+            continue
+        if mode != "srq":
+            continue
+        # a constant weight under CHANNELWISE granularity is recorded per channel of the dimension the kernel expects
+        wc = _cfg.weight_tensor_config
+        if key in orc.WEIGHT_OPS and wc is not None and str(getattr(wc.granularity, "value", wc.granularity)) == "CHANNELWISE" \
+                and len(op.inputs) > orc.WEIGHT_SLOT[key] and op.inputs[orc.WEIGHT_SLOT[key]] != -1:
+            tw = sg.tensors[op.inputs[orc.WEIGHT_SLOT[key]]]
+            ent = result.get(pl.tname(tw))
+            if m.buffers[tw.buffer].data is not None and tw.type == TT.FLOAT32 and ent and len(tw.shape) >= 2:
+                shp = [int(x) for x in tw.shape]
+                if key == "BATCH_MATMUL":
+                    qd = len(shp) - 2 if (op.builtinOptions is not None and op.builtinOptions.adjY) else len(shp) - 1
+                else:
+                    qd = orc.WEIGHT_QDIM[key]
+                want = [shp[d] if d == qd else 1 for d in range(len(shp))]
+                got = list(np.asarray(ent["min"]).shape)
+                ctx.tag("per_channel_statistics_shape_checked")
+                if got != want and shp[qd] > 1:
+                    return fail(f"statistics of the CHANNELWISE weight {pl.tname(tw)} of {key} have shape {got}, expected one value per channel "
+                                f"of dimension {qd}: {want}", "const-stats-granularity")
+        for ti in list(op.inputs) + list(op.outputs):
+            if ti == -1 or sg.tensors[ti].type != TT.FLOAT32 or 0 in [int(x) for x in sg.tensors[ti].shape]:
+                continue
+            nm = pl.tname(sg.tensors[ti])
+            ctx.tag("statistics_presence_checked")
+            if not result.get(nm):
+                kind = "constant" if m.buffers[sg.tensors[ti].buffer].data is not None else "runtime tensor"
+                return fail(f"no statistics recorded for {kind} {nm}, an operand/result of the selected operator {key} of the calibrated subgraph", "stats-missing-" + kind.split()[0])
+    if not values:
+        return
     for name, qv in result.items():
         if name not in names or not qv:
             continue
